@@ -4,7 +4,7 @@ import RtenVerif.Model.QuantGemm
 /-!
 `model_C17`: line protocol of `harness/gemm/src/bin/c17.rs`.
 
-`g kern=<generic|avx2|avx512> sat=<0|1> path=<gemm|gemv> pre=<0..3> lay=<xy> m= n= k= za= zb= c0= a= b=`
+`g kern=<generic|avx2|avx512> sat=<0|1> path=<gemm|gemv> pre=<0..3> lay=<xy> cb= m= n= k= za= zb= c0= a= b=`
 → the `m×n` i32 output (run-length encoded like the request), `panic`, or `skip`.
 -/
 namespace RtenVerif.Driver.C17
@@ -66,16 +66,15 @@ def handleG (ws : List String) : Option String := do
   -- depth block size: `depth_block_size::<i8>` = min(1024, K) for gemm; gemv chunks K by 512 if
   -- B has unit row stride, else by 8.
   let layB := (lay.toList.getD 1 'r')
-  let bRowStride1 := layB == 't' || (layB == 'r' && n == 1)
-  let kc := if path == "gemv" then (if bRowStride1 then 512 else 8) else 1024
-  -- The saturating model below is the one of the packed GEMM path (every K-tile goes through the
-  -- dot-product instruction).  The gemv path mixes SIMD and scalar (non saturating) steps; it is
-  -- compared only where saturation cannot occur.
-  let reduced := inReducedRange a b
-  if path == "gemv" && sat && !reduced then
-    return "skip"
-  let satEff := sat && !(path == "gemv")
-  let r : Request := { kern, sat := satEff, kc, preA, preB, m, n, k, za, zb, c0, a, b }
+  let bKind : BKind :=
+    if layB == 't' || (layB == 'r' && n == 1) then .unitRowStride
+    else if layB == 's' then .general else .unitColStride
+  let isGemv := path == "gemv"
+  let kc := if isGemv then (if bKind == .unitRowStride then 512 else 8) else 1024
+  let lanes := if kernS == "avx512" then 64 else 32
+  let cb ← (← field kvs "cb").toNat?
+  let r : Request := { kern, sat, kc, gemv := isGemv, bKind, lanes, cb, preA, preB, m, n, k,
+                       za, zb, c0, a, b }
   return showRle (gemm r)
 
 def handle (line : String) : String :=
